@@ -185,6 +185,9 @@ pub static VERBOSE_COPY: AtomicBool = AtomicBool::new(false);
 pub static COPY_COUNT: AtomicU64 = AtomicU64::new(0);
 pub static SCAN_COUNT: AtomicU64 = AtomicU64::new(0);
 pub static WALK_AT_RESUME: AtomicBool = AtomicBool::new(true);
+/// Was concurrent GC work in progress when the current pause asked the mutators to stop? (C06: tells a
+/// final-mark pause from a full stop-the-world pause in the walker report.)
+pub static CONC_AT_STOP: AtomicBool = AtomicBool::new(false);
 
 /// Optional extra reporters for directed driver modes (additive; unset by default):
 /// `RESUME_HOOK(epoch)` runs inside `resume_mutators` right after the walker report, i.e. after the
@@ -696,6 +699,7 @@ impl<const V: u32> Collection<ShadowVM<V>> for Coll<V> {
     {
         let epoch = GC_EPOCH.load(Ordering::Relaxed);
         ev(Obj::new("StopEnter").int("epoch", epoch as i64));
+        CONC_AT_STOP.store(mmtk::verif::concurrent_work_in_progress(mmtk::<V>()), Ordering::Relaxed);
         {
             let mut sp = SP.lock().unwrap();
             sp.stop_requested = true;
